@@ -14,7 +14,7 @@ class PathAbort(BaseException):
     """current path is infeasible / cut (BaseException: must not be swallowed by `except Exception`)"""
 
 
-class BoundExceeded(Exception):
+class BoundExceeded(BaseException):
     pass
 
 
@@ -61,7 +61,7 @@ class Stats:
 
 
 class Explorer:
-    def __init__(self, timeout_ms=20000, max_paths=200000, max_decisions=400, prefix=(),
+    def __init__(self, timeout_ms=20000, max_paths=200000, max_decisions=5000, prefix=(),
                  logic=None, margin=None, max_candidates=3, sample_every=0):
         self.timeout_ms = timeout_ms
         self.max_paths = max_paths
@@ -86,6 +86,8 @@ class Explorer:
     def _begin_path(self):
         self.solver = self._new_solver()
         self.constraints = []
+        self._decided = {}
+        self._decided_keep = []
         self.defs = {}                # id of constraint term -> defined fresh variable (definitional extensions)
         self.groups = {}              # id of assumption term -> group key (assumptions only relevant to one obligation group)
         self.model = None
@@ -250,6 +252,9 @@ class Explorer:
             return True
         if z3.is_false(c):
             return False
+        hit = self._decided.get(c.get_id())
+        if hit is not None:
+            return hit          # the same condition was already decided on this path
         self.stats.decisions += 1
         if self.pos >= self.max_decisions:
             raise BoundExceeded("more than %d decisions on one path" % self.max_decisions)
@@ -257,6 +262,8 @@ class Explorer:
             taken = self.stack[self.pos][0]
             self.pos += 1
             self._add(c if taken else z3.Not(c))
+            self._decided[c.get_id()] = taken
+            self._decided_keep.append(c)
             return taken
         # new decision
         hm = self._holds_in_model(c)
@@ -305,6 +312,8 @@ class Explorer:
         if hm is not None and (hm is True) != taken:
             self.model = alt_model
         self._add(c if taken else z3.Not(c))
+        self._decided[c.get_id()] = taken
+        self._decided_keep.append(c)
         return taken
 
     def concretize_int(self, t):
@@ -493,7 +502,7 @@ class Explorer:
         if r == "sat":
             ok = False
             self.stats.sat += 1
-            if len(self.stats.candidates) < self.max_candidates:
+            if sum(1 for c in self.stats.candidates if c.known is None) < self.max_candidates:
                 self.stats.candidates.append(Candidate(name, self.case_from_model(m), None, detail))
         elif r == "unknown":
             ok = False
